@@ -1,13 +1,16 @@
 """C14: every union occurrence parses in each of its alternatives (exhaustive over
 occurrence x alternative x representative shapes)."""
 from . import common, ctx
-from .gen import to_json
+from .gen import reorder, to_json
 from .workload import forced_cases, root_sites
 
 
 def shard(i, n, args):
     tier = args[0]
     seed = common.seed()
+    import os as _os
+
+    korder = int(_os.environ.get("PYTHONHASHSEED", "0") or 0) if (_os.environ.get("PYTHONHASHSEED", "0") or "0").isdigit() else 0
     from .pyside import HookCoverage
 
     cov = HookCoverage()
@@ -35,6 +38,9 @@ def shard(i, n, args):
                 res["genbugs"] += 1
                 continue
             res["cases"] += 1
+            # key order is not part of a JSON value: reversed / sorted / reverse-sorted / as generated,
+            # rotating with the case number and the hash seed of this run
+            j = reorder(j, (res["cases"] + korder) % 4)
             sites.add(site)
             pairs.add((site, alt))
             out = py.roundtrip(j, root.cls)
